@@ -26,6 +26,8 @@ ODD_DEFS = [
     "CREATE TABLE g10(a DEFAULT -5, b DEFAULT +3.5, c DEFAULT 'it''s', d DEFAULT NULL, e DEFAULT x'00ff')",
     "CREATE TABLE g11(a, b) STRICT",
     "CREATE TABLE g12(k TEXT PRIMARY KEY DESC, v) WITHOUT ROWID",
+    "CREATE TABLE g13(a, b)",        # gets columns with keyword / bare word defaults below (ALTER TABLE: the stored rows are short)
+    "CREATE TABLE g14(a, b)",
 ]
 
 
@@ -51,6 +53,10 @@ def odd_db(path, rnd):
             except Exception:
                 pass
     con.execute("ALTER TABLE g10 ADD COLUMN f DEFAULT 12")
+    con.execute("ALTER TABLE g13 ADD COLUMN f DEFAULT TRUE")
+    con.execute("ALTER TABLE g13 ADD COLUMN g DEFAULT FALSE")
+    con.execute("ALTER TABLE g14 ADD COLUMN w DEFAULT word")
+    con.execute("ALTER TABLE g14 ADD COLUMN q DEFAULT 'TRUE'")
     con.close()
     return made
 
